@@ -11,7 +11,9 @@ Local Open Scope Z_scope.
 Record vline := mkL { l_chrom : Z; l_pos : Z; l_id : option str; l_ref : str; l_alt : str; l_gt : list (Z * Z) }.
 
 (** cyvcf2 0.34: [Variant.POS] is a 32-bit field (the coordinate reduced modulo 2^32 into [-2^31, 2^31)), [Variant.start] and
-    [Variant.end] are 64-bit: start = POS - 1 (0-based), end = start + len(REF) (no INFO/END in the files considered) *)
+    [Variant.end] are 64-bit: start = coordinate - 1 (0-based), end = start + len(REF) (no INFO/END in the files considered).
+    Both importers now take the position from [variant.start + 1] (the generated k_vcf_<c>_phypos says so); [a_POS] stays an input of
+    the selectors, so an importer that went back to [variant.POS] would be described with the wrap again *)
 Definition wrap32 (z : Z) : Z := (z + 2147483648) mod 4294967296 - 2147483648.
 Definition a_POS (l : vline) : Z := wrap32 (l_pos l).
 Definition a_start (l : vline) : Z := l_pos l - 1.
@@ -27,6 +29,13 @@ Definition rec_of_line (phased : bool) (l : vline) : vrec :=
 
 Definition vcf_text_import (phased : bool) (n : nat) (lines : list vline) (auto_group : bool) : vcf_out :=
   vcf_import phased n (map (rec_of_line phased) lines) auto_group.
+
+(** the FORMER importers (before the repair of C16-vcf-pos-int32-wrap): vrnt_phypos.append(variant.POS), the 32-bit attribute.
+    Written by hand, kept only as the regression witness of Proofs/C16_Vcf.v : old_vcf_text_pos_refuted *)
+Definition old_rec_of_line (l : vline) : vrec :=
+  mkV (l_chrom l) (a_POS l) (Some (match l_id l with Some s => s | None => none_str end)) (l_gt l).
+Definition old_vcf_text_import (phased : bool) (n : nat) (lines : list vline) (auto_group : bool) : vcf_out :=
+  vcf_import phased n (map old_rec_of_line lines) auto_group.
 
 (** the array plumbing [vcf_import] stands for: allele columns 0 and 1 of [variant.genotypes], axes (variant, taxon, allele) turned into
     (allele, taxon, variant), the unphased importer sums over axis 0, every constructor field is filled from the local of its name *)
